@@ -195,10 +195,27 @@ def _cp_addressable(nodes, path="", ok=True):
 def cp2k_case(rng):
     """-> dict(text, addr, update, remove)."""
     forest = _cp_tree(rng, 0, CP_TITLES)
+    prefix_pair = None
+    if rng.random() < 0.12:
+        # two root sections whose names are string prefixes of one another
+        # (RESTART / RESTART_HISTORY), both removed, the shorter one first
+        a, b = [("RESTART", "RESTART_HISTORY"), ("VELOCITY", "VELOCITIES"),
+                ("KIND", "KINDS")][int(rng.integers(0, 3))]
+        roots = [nd["title"] for nd in forest]
+        for t in (a, b):
+            if t not in roots:
+                forest.append({"title": t, "group": 1, "kids": [],
+                               "params": [], "table": False,
+                               "lines": [f"{rng.choice(CP_KEYS)} "
+                                         f"{rng.choice(CP_VALS)}"]})
+        if all(nd["group"] == 1 for nd in forest if nd["title"] in (a, b)):
+            prefix_pair = [a, b]
     text = "\n".join(["# generated template"] * (rng.random() < 0.3)
                      + _cp_render(rng, forest)) + "\n"
     addr = _cp_addressable(forest)
     update, used, pair_updated = {}, [], False
+    if prefix_pair:
+        used += prefix_pair
     for _ in range(int(rng.integers(1, 5))):
         tgt, nd, pair = addr[int(rng.integers(0, len(addr)))]
         new = rng.random() < 0.3 and not pair
@@ -238,7 +255,7 @@ def cp2k_case(rng):
         if rng.random() < 0.2 and not pair:
             val["settings"] = [str(rng.choice(CP_PARAMS))]
         update[tgt] = val
-    remove = []
+    remove = list(prefix_pair or [])
     for _ in range(int(rng.integers(0, 3))):
         tgt, _, in_pair = addr[int(rng.integers(0, len(addr)))]
         if in_pair and pair_updated:
